@@ -165,6 +165,7 @@ structure Laws (P : Prims) : Prop where
   ed_keypair : ∀ seed pk sk, P.edSeedKeypair seed = some (pk, sk) →
     seed.length = 32 ∧ IsBytes seed ∧ sk.length = 64 ∧ IsBytes sk ∧ P.edSkToPk sk = some pk ∧ P.edSkToSeed sk = some seed
   blake_len : ∀ n m, (P.blake2b n m).length = n ∧ IsBytes (P.blake2b n m)
+  sha_len : ∀ m, (P.sha256 m).length = 32 ∧ IsBytes (P.sha256 m)
   /-- secretbox: opening a box with the key and nonce it was sealed with returns the message; a box is the
   message plus a 16-byte authenticator -/
   seal_open : ∀ k n m, P.boxOpen k n (P.boxSeal k n m) = some m
@@ -343,8 +344,17 @@ def classify (ek : Str) : Except Err (Curve × Bool × Bool) :=
         | some c => .ok (c, encrypted, pos == tagSk)
   | _, _ => .error .unrecognisedSource
 
-/-- `Key.from_encoded_key(key, passphrase)`; the passphrase is already bytes (`get_passphrase` encodes a str;
-without one the real code reads the environment or prompts: outside the model) -/
+/-- the `if encrypted:` block of `from_encoded_key`: split the salt off, derive the box key with PBKDF2, open the
+secretbox with the all-zero nonce.  The passphrase is already bytes (`get_passphrase` encodes a str; without one
+the real code reads the environment or prompts: outside the model). -/
+def decryptSecret (P : Prims) (kdf : Kdf) (pass : Option Bytes) (dec : Bytes) : Except Err Bytes :=
+  match pass with
+  | none => .error (.other .passphrase)
+  | some pw =>
+    orErr (P.boxOpen (P.pbkdf2 kdf.iterations kdf.dklen pw (dec.take kdf.saltLen))
+      (List.replicate kdf.nonceLen 0) (dec.drop kdf.saltLen)) (.valueError .unseal)
+
+/-- `Key.from_encoded_key(key, passphrase)` -/
 def fromEncodedKey (P : Prims) (C : Codec) (key : PyIn) (pass : Option Bytes) : Except Err Key :=
   match scrub key with
   | .error e => .error e
@@ -357,14 +367,9 @@ def fromEncodedKey (P : Prims) (C : Codec) (key : PyIn) (pass : Option Bytes) : 
       | some dec =>
         if !isSecret then .ok ⟨dec, none, c⟩
         else if encrypted then
-          match importKdf, pass with
-          | none, _ => .error .unrecognisedSource
-          | _, none => .error (.other .passphrase)
-          | some kdf, some pw =>
-            match P.boxOpen (P.pbkdf2 kdf.iterations kdf.dklen pw (dec.take kdf.saltLen))
-                (List.replicate kdf.nonceLen 0) (dec.drop kdf.saltLen) with
-            | none => .error (.valueError .unseal)
-            | some se => fromSecretExponent P c se
+          match importKdf with
+          | none => .error .unrecognisedSource
+          | some kdf => (decryptSecret P kdf pass dec).bind (fromSecretExponent P c)
         else fromSecretExponent P c dec
 
 /-- `Key.public_key()` -/
